@@ -343,15 +343,8 @@ class trie {
             }
         }
 
-        if (bin_mode() and itr->m_kpos == itr->m_key.size()) {
-            // Is the key terminated at an inner term?
-            itr->is_end = true;
-            itr->m_id = num_keys();
-            return false;
-        }
-
         while (!m_bcvec.is_leaf(itr->m_npos)) {
-            if (bin_mode() and itr->m_kpos == itr->m_key.size()) {
+            if (itr->m_kpos == itr->m_key.size()) {
                 // Is the key terminated at an internal node (not term)?
                 itr->is_end = true;
                 itr->m_id = num_keys();
